@@ -1036,21 +1036,48 @@ class Extractor:
                 return "lit"
             return None
         if isinstance(x, ast.Attribute) and isinstance(x.value, ast.Name):
-            g = f
-            while g is not None and g.kind != "module":
-                if x.value.id in g.assigns:
-                    vals = g.assigns[x.value.id]
-                    if vals and all(isinstance(v, ast.Call) and isinstance(v.func, ast.Attribute) and
-                                    v.func.attr in ("parse_args", "parse_known_args") for v in vals):
-                        return "user"
-                    return None
-                g = g.parent
-            return None
+            return "user" if self.is_cli_namespace(x.value, f, seen) else None
         if isinstance(x, ast.BoolOp):
             return combine([self.user_path(v, f, seen) for v in x.values])
         if isinstance(x, ast.IfExp):
             return combine([self.user_path(x.body, f, seen), self.user_path(x.orelse, f, seen)])
         return None
+
+    def is_cli_namespace(self, x, f, seen):
+        """does the Name x denote the result of ArgumentParser.parse_args()?  Either it is assigned only
+        from parse_args() calls in an enclosing function, or it is a parameter to which every call site
+        passes such a namespace (a helper that main() hands its parsed arguments to)."""
+        g = f
+        while g is not None and g.kind != "module":
+            if x.id in g.params:
+                key = (g.qual, x.id, "ns")
+                if key in seen:
+                    return True
+                if g.qual in self.escaped or g.kind == "lambda":
+                    return False
+                sites = self.callsites.get(g, [])
+                if not sites:
+                    return False
+                for caller, call, how in sites:
+                    if any(isinstance(a, ast.Starred) for a in call.args) or any(k.arg is None for k in call.keywords):
+                        return False
+                    arg = next((k.value for k in call.keywords if k.arg == x.id), None)
+                    if arg is None:
+                        pos = list(g.pos_params)
+                        if g.cls is not None and "staticmethod" not in g.deco:
+                            pos = pos[1:]
+                        if x.id in pos and pos.index(x.id) < len(call.args):
+                            arg = call.args[pos.index(x.id)]
+                    if not isinstance(arg, ast.Name) or not self.is_cli_namespace(arg, caller, seen | {key}):
+                        return False
+                return True
+            if x.id in g.assigns:
+                vals = g.assigns[x.id]
+                return bool(vals) and all(
+                    isinstance(v, ast.Call) and isinstance(v.func, ast.Attribute) and
+                    v.func.attr in ("parse_args", "parse_known_args") for v in vals)
+            g = g.parent
+        return False
 
     def param_ok(self, g, name, seen):
         if (g.qual, name) in seen:
